@@ -148,6 +148,12 @@ pub fn gen(rng: &mut Rng, n: usize, out: &mut Vec<String>) {
                 }
                 continue;
             }
+            if rng.chance(1, 9) {
+                if let Some(l) = recv_case(&s, rng, stranger) {
+                    out.push(l);
+                }
+                continue;
+            }
             if rng.chance(1, 12) {
                 if let Some(l) = startfl_case(&s, rng, stranger) {
                     out.push(l);
@@ -629,6 +635,141 @@ fn emis_case(s: &Scen, rng: &mut Rng, stranger: Pubkey) -> Option<String> {
                 g1.deleverage_withdraw_window_cache.daily_limit, g1.deleverage_withdraw_window_cache.withdrawn_today, g1.deleverage_withdraw_window_cache.last_daily_reset_timestamp
             ))
         }
+        Err(ExecErr::Custom(code)) if code >= 6000 => Some(format!("{} => err {}", head, code)),
+        Err(ExecErr::Panic) => Some(format!("{} => panic", head)),
+        Err(_) => None,
+    }
+}
+
+/// `wd.startliq` / `wd.endliq`: the REAL start_liquidation (inside a REAL atomic transaction of varying shape: the start's own
+/// verdict is read off the index of the first failing instruction; a committed [start, end] leaves the start's snapshot in the
+/// record) and the REAL end_liquidation (dispatched on an account put into receivership with a snapshot around its current
+/// valuation), on borrowers whose collateral was shrunk or not, with the account's own record or another one, the receiver the
+/// record names or someone else, the fee state's wallet or another one, flagged or not.
+///   wd.startliq … recordOk receiver n code_1..code_n cur `=> ok <flags> <receiver> <snapshot x4>`
+///   wd.endliq   … recordOk recReceiver walletOk feeMax <snapshot x4> `=> ok <flags>`
+fn recv_case(s: &Scen, rng: &mut Rng, stranger: Pubkey) -> Option<String> {
+    let mut cands = vec![];
+    for (ui, us) in s.users.iter().enumerate() {
+        let a = s.w.marginfi_account(&us.acct);
+        if a.lending_account.balances.iter().any(|b| b.is_active() && bits(b.liability_shares) >= ONE) { cands.push(ui); }
+    }
+    if cands.is_empty() && rng.chance(19, 20) { return None; }
+    let u = if !cands.is_empty() && rng.chance(9, 10) { *rng.pick(&cands) } else { rng.below(s.users.len() as u64) as usize };
+    let v = (u + 1) % s.users.len();
+    let mut w = s.w.clone();
+    let acct_key = s.users[u].acct;
+    let h = s.banks[0];
+    // mostly unhealthy: the collateral shrinks
+    if rng.chance(9, 10) {
+        let mut a = w.marginfi_account(&acct_key);
+        let pm = *rng.pick(&[0i128, 0, 0, 1, 10, 100]);
+        for bal in a.lending_account.balances.iter_mut().filter(|x| x.is_active()) {
+            let sh = bits(bal.asset_shares);
+            if sh > 0 { bal.asset_shares = I80F48::from_bits(sh / 1000 * pm).into(); }
+        }
+        w.set_marginfi_account(&acct_key, &a);
+    }
+    let receiver = w.add_wallet(1_000_000_000);
+    let rec_key = w.add_liquidation_record(acct_key, receiver);
+    let other_rec = w.add_liquidation_record(s.users[v].acct, receiver);
+    let (fs_key, _) = crate::world::fixtures::fee_state_pda();
+    let mut fs = w.fee_state(&fs_key);
+    let fee_bits: i128 = *rng.pick(&[0i128, ONE / 100 * 3, ONE / 20, ONE / 10, ONE / 5]);
+    fs.liquidation_max_fee = I80F48::from_bits(fee_bits).into();
+    fs.liquidation_flat_sol_fee = *rng.pick(&[0u32, 0, 5000]);
+    let fee_wallet = fs.global_fee_wallet;
+    w.set_fee_state(&fs_key, &fs);
+    if rng.chance(1, 5) {
+        let mut a = w.marginfi_account(&acct_key);
+        a.account_flags |= *rng.pick(&[ACCOUNT_DISABLED, ACCOUNT_IN_FLASHLOAN, ACCOUNT_IN_RECEIVERSHIP]);
+        w.set_marginfi_account(&acct_key, &a);
+    }
+    let risk = w.remaining_in_slot_order(&acct_key);
+    if rng.chance(1, 2) {
+        // ---- the start, inside a transaction
+        let record_ok = rng.chance(7, 8);
+        let mut start = ix::start_liquidation(acct_key, receiver, risk.clone());
+        if !record_ok { start.accounts[1].pubkey = other_rec; }
+        let end = ix::end_liquidation(acct_key, receiver, fee_wallet, risk.clone());
+        let filler = ix::accrue(&h);
+        // (codes: 0 start, 1 end, 4 another marginfi instruction)
+        let (ixs, codes, cur): (Vec<solana_sdk::instruction::Instruction>, Vec<i128>, usize) = match rng.below(10) {
+            0 => (vec![start.clone()], vec![0], 0),
+            1 => (vec![filler.clone(), start.clone(), end.clone()], vec![4, 0, 1], 1),
+            2 => (vec![start.clone(), start.clone(), end.clone()], vec![0, 0, 1], 0),
+            3 => (vec![start.clone(), filler.clone(), end.clone()], vec![0, 4, 1], 0),
+            4 => (vec![start.clone(), end.clone(), filler.clone()], vec![0, 1, 4], 0),
+            _ => (vec![start.clone(), end.clone()], vec![0, 1], 0),
+        };
+        let a0 = w.marginfi_account(&acct_key);
+        let (head, mut keys) = context_line(s, &w, "wd.startliq", &acct_key, &h, receiver, h.liquidity_vault, 0, false);
+        // replace the trailing "amount flag" by the start's own arguments
+        let mut toks: Vec<String> = head.split(' ').map(|x| x.to_string()).collect();
+        toks.truncate(toks.len() - 2);
+        toks[127] = "0".to_string();
+        toks.push(format!("{} {} {}", record_ok as u8, keys.any(&receiver), codes.len()));
+        toks.push(codes.iter().map(|c| c.to_string()).collect::<Vec<_>>().join(" "));
+        toks.push(cur.to_string());
+        let head = toks.join(" ");
+        return match w.exec_tx(&ixs) {
+            Err((i, _)) if i < cur => None,
+            Err((i, ExecErr::Custom(code))) if i == cur && code >= 6000 => Some(format!("{} => err {}", head, code)),
+            Err((i, ExecErr::Panic)) if i == cur => Some(format!("{} => panic", head)),
+            Err(_) => None,
+            Ok(()) => {
+                let rec = w.liquidation_record(&rec_key);
+                Some(format!(
+                    "{} => ok {} {} {} {} {} {}",
+                    head, a0.account_flags | ACCOUNT_IN_RECEIVERSHIP, keys.any(&receiver),
+                    bits(rec.cache.asset_value_maint), bits(rec.cache.liability_value_maint), bits(rec.cache.asset_value_equity), bits(rec.cache.liability_value_equity)
+                ))
+            }
+        };
+    }
+    // ---- the end, on an account in receivership with a snapshot around the current valuation
+    let mut probe = w.clone();
+    if probe.exec(&ix::pulse_health(acct_key, risk.clone())).is_err() { return None; }
+    let hc = probe.marginfi_account(&acct_key).health_cache;
+    let (am, lm, ae, le) = (bits(hc.asset_value_maint), bits(hc.liability_value_maint), bits(hc.asset_value_equity), bits(hc.liability_value_equity));
+    let jit = |rng: &mut Rng, x: i128| -> i128 { match rng.below(5) { 0 => x, 1 => x + 1, 2 => (x - 1).max(0), 3 => x + (rng.below(ONE as u64) as i128), _ => (x - (rng.below(ONE as u64) as i128)).max(0) } };
+    let (pam, plm) = (jit(rng, am), jit(rng, lm));
+    let prem = ONE + fee_bits.max(ONE / 20);
+    let repaid: i128 = match rng.below(4) { 0 => 0, 1 => rng.below(1000) as i128, 2 => (1 + rng.below(100_000) as i128) * ONE, _ => le / 2 + 1 };
+    let at_cap: i128 = ((num_bigint::BigInt::from(repaid) * num_bigint::BigInt::from(prem)) >> 48u32).try_into().unwrap_or(i128::MAX / 4);
+    let seized: i128 = match rng.below(6) { 0 => 0, 1 => at_cap, 2 => at_cap + 1, 3 => (at_cap - 1).max(0), 4 => repaid, _ => at_cap.saturating_mul(2) };
+    let (pae, ple) = (ae.saturating_add(seized), le.saturating_add(repaid));
+    let named = if rng.chance(7, 8) { receiver } else { stranger };
+    let mut rec = w.liquidation_record(&rec_key);
+    rec.liquidation_receiver = named;
+    rec.cache.asset_value_maint = I80F48::from_bits(pam).into();
+    rec.cache.liability_value_maint = I80F48::from_bits(plm).into();
+    rec.cache.asset_value_equity = I80F48::from_bits(pae).into();
+    rec.cache.liability_value_equity = I80F48::from_bits(ple).into();
+    w.set_liquidation_record(&rec_key, &rec);
+    {
+        let mut a = w.marginfi_account(&acct_key);
+        if rng.chance(9, 10) { a.account_flags |= ACCOUNT_IN_RECEIVERSHIP; }
+        w.set_marginfi_account(&acct_key, &a);
+    }
+    let record_ok = rng.chance(7, 8);
+    let wallet_ok = rng.chance(7, 8);
+    let mut end = ix::end_liquidation(acct_key, receiver, if wallet_ok { fee_wallet } else { stranger }, risk.clone());
+    if !record_ok {
+        // (another account's record, naming the same receiver)
+        let mut r2 = w.liquidation_record(&other_rec);
+        r2.liquidation_receiver = named;
+        w.set_liquidation_record(&other_rec, &r2);
+        end.accounts[1].pubkey = other_rec;
+    }
+    let (head, mut keys) = context_line(s, &w, "wd.endliq", &acct_key, &h, receiver, h.liquidity_vault, 0, false);
+    let mut toks: Vec<String> = head.split(' ').map(|x| x.to_string()).collect();
+    toks.truncate(toks.len() - 2);
+    toks[127] = "0".to_string();
+    toks.push(format!("{} {} {} {} {} {} {} {}", record_ok as u8, keys.any(&named), wallet_ok as u8, fee_bits, pam, plm, pae, ple));
+    let head = toks.join(" ");
+    match w.exec(&end) {
+        Ok(()) => Some(format!("{} => ok {}", head, w.marginfi_account(&acct_key).account_flags)),
         Err(ExecErr::Custom(code)) if code >= 6000 => Some(format!("{} => err {}", head, code)),
         Err(ExecErr::Panic) => Some(format!("{} => panic", head)),
         Err(_) => None,
